@@ -117,3 +117,85 @@ def unit_range_validate():
         return {"contract": range_validate_contract(), "spec_functions": {"item_contains": item_contains},
                 "assumptions": ["Range.validate: `%r` formatting of the value and str(self) in the error message are opaque strings (message text is not part of C01)"]}
     return ProofUnit("ranges.Range.validate", "Range.validate accepts iff some item contains the value (loop invariant, termination)", ["C01", "C02", "C03"], make, ValidateOracle())
+
+
+# ---------------------------------------------------------------- DecimalRange.validate
+DITEM = Tup(Opt(DEC), Opt(DEC))
+
+
+def dec_item_contains(ex, st, item, v):
+    lo = ex.spec_value("it[0]", st, {"it": item}); hi = ex.spec_value("it[1]", st, {"it": item})
+    return ex.spec("(lo is None or lo <= v) and (hi is None or v <= hi)", st, {"lo": lo, "hi": hi, "v": v})
+
+
+def sf_items_finite(ex, st, items):
+    i = z3.Int("i!fin"); S_ = sort_of(DITEM); O = sort_of(Opt(DEC))
+    lo = S_.accessor(0, 0)(items.at(i)); hi = S_.accessor(0, 1)(items.at(i))
+    return Sym(BOOL, z3.ForAll([i], z3.Implies(z3.And(0 <= i, i < items.length),
+                                               z3.And(z3.Or(O.is_none(lo), dec_fin(O.val(lo))), z3.Or(O.is_none(hi), dec_fin(O.val(hi))), z3.Not(z3.And(O.is_none(lo), O.is_none(hi)))))))
+
+
+def sf_is_finite(ex, st, v): return Sym(BOOL, dec_fin(lift(v).z))
+
+
+def decimal_range_validate_contract(value_kind):
+    """value_kind: 'dec' (a Decimal, possibly NaN/Infinity), 'int', or 'str' (converted by Decimal(), A-DEC)"""
+    vty = {"dec": DEC, "int": INT, "str": STR}[value_kind]
+    base = _setup_validate("DecimalRange", DEC)
+    def setup(ex, st):
+        base(ex, st)
+        st.frames[-1].env["value"] = fresh(vty, "value")[0]
+        v = st.frames[-1].env["value"]
+        if value_kind == "dec": st.ghost["dvalue"] = v
+        elif value_kind == "int": st.ghost["dvalue"] = Sym(DEC, mk_dec(z3.ToReal(v.z), True))
+        else:
+            st.ghost["dvalue"] = Sym(DEC, ex.absfun_s("dec_of", [z3.StringSort()], sort_of(DEC))(v.z))
+            st.ghost["parses"] = Sym(BOOL, ex.absfun_s("dec_parses", [z3.StringSort()], z3.BoolSort())(v.z))
+    parses = "parses and " if value_kind == "str" else ""
+    SOME = "exists(i, 0 <= i and i < len(self._items), dec_item_contains(self._items[i], dvalue))"
+    return Contract("ranges.DecimalRange.validate", setup,
+        requires=["name != ''", "items_finite(self._items)"],
+        returns=[Clause(parses + "is_finite(dvalue) and " + SOME, "accepted-only-if-finite-and-some-item-contains")],
+        raises={"RangeValueError": [Clause("not (" + parses + "is_finite(dvalue) and " + SOME + ")", "rejected-only-if-not-a-finite-number-inside-some-item")]},
+        loops={0: LoopSpec(
+            invariants=["0 <= item_index and item_index <= len(self._items)", "is_finite(value_as_decimal)", "value_as_decimal == dvalue",
+                        "iff(is_valid, exists(j, 0 <= j and j < item_index, dec_item_contains(self._items[j], dvalue)))"],
+            havoc={"is_valid": BOOL, "item_index": INT, "lower": Opt(DEC), "upper": Opt(DEC)},
+            decreases="len(self._items) - item_index")},
+        expect=["return", "RangeValueError"], n_loops=1, modifies=[])
+
+
+class DecimalValidateOracle(ValidateOracle):
+    cls_name = "DecimalRange"
+    bound = "1-2 items with limits in {None,-1,0,1,2} x values -2..3 as Decimal, plus NaN / Infinity / numeric text"
+    def conv(self, x):
+        import decimal
+        return x if isinstance(x, (str, decimal.Decimal)) else decimal.Decimal(x)
+    def check(self, case):
+        import decimal
+        items, v = case
+        if isinstance(v, str):
+            from cutplace import ranges, errors
+            r = _range_with_items([tuple(None if x is None else decimal.Decimal(x) for x in it) for it in items], ranges.DecimalRange)
+            try: d = decimal.Decimal(v); fin = d.is_finite()
+            except decimal.InvalidOperation: d = None; fin = False
+            exp = "return" if (fin and n_accepts(items, d)) else "RangeValueError"
+            try: r.validate("x", v); obs = "return"
+            except errors.RangeValueError: obs = "RangeValueError"
+            except Exception as e: obs = type(e).__name__
+            return None if obs == exp else {"expected": exp, "observed": obs}
+        return super().check(case)
+    def cases(self, ctx):
+        for v in ("NaN", "sNaN", "Infinity", "-Infinity", "1.5", "abc", "", "1e1"):
+            yield ([(0, None)], v); yield ([(None, 2)], v)
+        yield from super().cases(ctx)
+    def from_model(self, ob): return None
+
+
+def unit_decimal_range_validate():
+    def make(ctx):
+        sf = {"dec_item_contains": dec_item_contains, "items_finite": sf_items_finite, "is_finite": sf_is_finite}
+        return [{"contract": decimal_range_validate_contract(k), "spec_functions": sf, "label": "value is " + k,
+                 "assumptions": ["A-DEC: decimal.Decimal(text) is an abstract partial function (dec_parses / dec_of) raising only decimal.InvalidOperation; comparisons of finite decimals are exact; a comparison with a non-finite operand is modelled as raising InvalidOperation"]}
+                for k in ("dec", "int", "str")]
+    return ProofUnit("ranges.DecimalRange.validate", "DecimalRange.validate accepts iff the value is a finite number inside some item", ["C01", "C02", "C10"], make, DecimalValidateOracle())
